@@ -35,7 +35,7 @@ use crate::verif::{core, std};
 use core::mem::transmute;
 use core::{
     fmt,
-    mem::{needs_drop, size_of, MaybeUninit},
+    mem::{needs_drop, size_of, ManuallyDrop, MaybeUninit},
     time::Duration,
 };
 use std::time::Instant;
@@ -904,19 +904,21 @@ impl<T> Sender<T> {
             Ok(())
         } else {
             // send directly to the waitlist
-            let mut d = data.take().unwrap();
-            let sig = Signal::new_sync(KanalPtr::new_from(&mut d));
+            // ManuallyDrop: once a receiver has read the value through the
+            // signal it owns it, the local copy must not be dropped as well
+            let mut d = ManuallyDrop::new(data.take().unwrap());
+            let sig = Signal::new_sync(KanalPtr::new_from(&mut *d));
             internal.push_send(sig.get_terminator());
             drop(internal);
             if !sig.wait_timeout(deadline) {
                 if sig.is_terminated() {
-                    *data = Some(d);
+                    *data = Some(ManuallyDrop::into_inner(d));
                     return Err(SendErrorTimeout::Closed);
                 }
                 {
                     let mut internal = acquire_internal(&self.internal);
                     if internal.cancel_send_signal(&sig) {
-                        *data = Some(d);
+                        *data = Some(ManuallyDrop::into_inner(d));
                         return Err(SendErrorTimeout::Timeout);
                     }
                 }
@@ -924,7 +926,7 @@ impl<T> Sender<T> {
                 #[cfg(kanal_verif)]
                 crate::verif::rt::probe(crate::verif::rt::probe::CANCEL_SEND_LOST);
                 if !sig.wait() {
-                    *data = Some(d);
+                    *data = Some(ManuallyDrop::into_inner(d));
                     return Err(SendErrorTimeout::Closed);
                 }
             }
